@@ -23,6 +23,8 @@
 //!   cliw <silent|routes> <caller> <Endpoint::timeout ns|none> <latency ns|never> <p ns>
 //!     the same on a real `Channel` (poll_ready, call; polled with the no-op waker at once and again
 //!     after the buffer's worker has run; awaited from `p` on).
+//! Generator only (existing kinds): ZERO deadlines through the builders and the real stacks, and VERY LONG
+//! ones (>= 2^32 ms, 2^32 s, > 2^64 ns, 99999999H) against calls that answer long before.
 //! observed: cx / sx: `status <code> <hex message> <t>` | `pending` (sx: one segment per request,
 //! joined by ` | `); runw / cliw: as `runl`.
 use super::*;
@@ -681,6 +683,69 @@ pub fn generate(tier: &str, rng: &mut Rng) -> Vec<String> {
     }
     // a latency may coincide with another request's deadline only if it is not a deadline of ITS request: filter the rest
     out.retain(|c| !c.starts_with("sx ") || sx_clean(c));
+    // ---- extreme deadlines through the builders and the real stacks (existing kinds): ZERO
+    // (`Server::timeout(0)`, `Endpoint::timeout(0)`, `set_timeout(0)` = "0n": cut at once, not "no
+    // timeout"), and VERY LONG ones (2^32 ms = 49.7 days and up, 2^32 s, more than 2^64 ns, the
+    // largest representable): a call that answers long before is not cut (latencies stay below the
+    // observation horizon, so only `inner` is expected).
+    let sec = 1000 * ms;
+    for l in [5 * ms, 300 * ms] {
+        out.push(format!("srv none 0 {l}"));
+        out.push(format!("srv 0 none {l}"));
+        out.push(format!("srv {} 0 {l}", 20 * ms));
+        out.push(format!("cli silent none 0 {l}"));
+        out.push(format!("cli silent 0 none {l}"));
+        out.push(format!("cli routes 0 {} {l}", 20 * ms));
+        out.push(format!("e2e none 0 none {l}"));
+        out.push(format!("e2e none none 0 {l}"));
+        out.push(format!("e2e 0 none none {l}"));
+        out.push(format!("seq - t0 - {l}"));
+        out.push(format!("seq - - t0 {l}"));
+        out.push(format!("seq - t{},l,t0 k{},t0 {l}", 20 * ms, ms));
+        out.push(format!("seq - t0,t{} t0,t{} {l}", 20 * ms, 20 * ms));
+        out.push(format!("seq {},0 - - {l}", 20 * ms));
+        out.push(format!("cx lazy u - silent ok none 0 {l}"));
+        out.push(format!("cx new ss - routes e5 0 none {l}"));
+        out.push(format!("sx svc - ok 0 none {l} / none {l}"));
+        out.push(format!("sx rts dl e5 0 none {l} / {} {l}", 1000 * ms));
+        out.push(format!("mw 0 none {l} {} {l}", 1000 * ms));
+        out.push(format!("chan silent 0 none {l} {} {l}", 1000 * ms));
+        out.push(format!("conn 0 none {l} {} {l}", 1000 * ms));
+    }
+    for never in ["srv none 0 never", "cli silent none 0 never", "cli routes 0 none never", "srv 0 none never"] {
+        out.push(never.to_string());
+    }
+    let hour = 3600 * sec;
+    // every one can also be written by hand exactly (whole S / M / H in 8 digits)
+    let longs: [u128; 6] = [
+        4_294_968 * sec,          // just above 2^32 ms
+        8_589_935 * sec,          // just above 2^33 ms
+        71_582_789 * 60 * sec,    // just above 2^32 s
+        5_124_096 * hour,         // just above 2^64 ns
+        27_777_000 * hour,
+        99_999_999 * hour,        // the largest value the header can carry
+    ];
+    for d in longs {
+        for l in [5 * ms, 1_000 * sec, 3_000 * sec] {
+            out.push(format!("run none {d} {l}"));
+            out.push(format!("run {d} none {l}"));
+            out.push(format!("run {d} {d} {l}"));
+            out.push(format!("srv {d} none {l}"));
+            out.push(format!("srv none {d} {l}"));
+            out.push(format!("cli silent {d} none {l}"));
+            out.push(format!("cli routes none {d} {l}"));
+            out.push(format!("seq {d} t{d} t{d} {l}"));
+            if l < 3_000 * sec {
+                out.push(format!("e2e {d} {d} {d} {l}"));
+                out.push(format!("cx lazy bi - silent ok {d} {d} {l}"));
+                out.push(format!("sx svc - ok {d} none {l} / {d} {l}"));
+                out.push(format!("runl {d} {d} {l} {}", l / 2));
+                out.push(format!("mw {d} none {l} {d} {l}"));
+                out.push(format!("chan silent {d} none {l} {d} {l}"));
+                out.push(format!("conn {d} none {l} {d} {l}"));
+            }
+        }
+    }
     // ---- runw / cliw
     out.push(format!("runw none {} never 0", 100 * ms));
     out.push(format!("runw {} none never 0", 100 * ms));
